@@ -529,6 +529,9 @@ func (e *Env) evalSel(x *Expr) Val {
 		r := Val{sx("select", arr, base.t), fs, ft}
 		if !e.underQuant {
 			f.assumeAlive(e.st, r)
+			if wt := vc.S.wellTyped(r.t, ft, 1); wt != "true" && len(r.t) < 400 {
+				vc.assume(wt) // heap fields hold values of their Go type
+			}
 		}
 		return r
 	}
